@@ -267,6 +267,6 @@ impl Family for MultiTopic {
         out.into_iter().map(|s| serde_json::to_value(s).unwrap()).collect()
     }
     fn watchdog_ms(&self) -> u64 {
-        120_000
+        60_000
     }
 }
